@@ -59,3 +59,26 @@ for path, per in summ.items():
         outs[path] = per
 json.dump(outs, open(os.path.join(os.path.dirname(os.path.abspath(__file__)), "sa", "ref_summaries.json"), "w"), indent=0, sort_keys=True)
 print(len(outs), "branch-free bodies,", sum(1 for v in outs.values() if "*" not in v), "configuration dependent")
+
+# loop-free, effect-free bodies WITH branches: (conditions -> result) tables
+paths = {}
+for cfg, prog in facts.load_many(list(facts.CONFIGS)).items():
+    for path, fs in prog.by_path.items():
+        if len(fs) != 1 or fs[0].derived or "closure" in path or _summary.EXCLUDE.search(path):
+            continue
+        f = fs[0]
+        if _summary.straight(f) or not _summary.loop_free(f) or len(f.live) > 60:
+            continue
+        try:
+            ps = _summary.path_summary(prog, f)
+        except RecursionError:
+            ps = None
+        if ps is None:
+            continue
+        paths.setdefault(path, {})[cfg] = ps
+outp = {}
+for path, per in paths.items():
+    vals = list(per.values())
+    outp[path] = {"*": vals[0], "in": sorted(per)} if all(v == vals[0] for v in vals) else per
+json.dump(outp, open(os.path.join(os.path.dirname(os.path.abspath(__file__)), "sa", "ref_paths.json"), "w"), indent=0, sort_keys=True)
+print(len(outp), "branching effect-free bodies,", sum(1 for v in outp.values() if "*" not in v), "configuration dependent")
